@@ -43,6 +43,11 @@ type world struct {
 
 	// Every (kind,h,r,target,validator) signature the harness has produced with a real key for that exact content.
 	signed map[string]bool
+
+	// exclKey is the pool key of a validator that is played by a real engine (-1: none): the harness never signs with it.
+	exclKey int
+	// honestVoted records what each honest validator voted per (kind,h,r): honest validators do not equivocate.
+	honestVoted map[string]string
 }
 
 type vkey struct {
@@ -71,6 +76,8 @@ func newWorld() *world {
 		hdrs:        map[string]tmconsensus.Header{},
 		genPC:       map[vkey]map[int]bool{},
 		signed:      map[string]bool{},
+		exclKey:     -1,
+		honestVoted: map[string]string{},
 	}
 	w.genesis = tmconsensus.Genesis{
 		ChainID:             "verif-chain",
@@ -234,7 +241,15 @@ func (w *world) commitProofFor(h uint64) tmconsensus.CommitProof {
 	r := w.commitRound[h]
 	hash := string(w.header("A", h).Hash)
 	var sigs []gcrypto.SparseSignature
-	for i := 0; i < byzIdx; i++ {
+	for i := 0; i < nVals; i++ {
+		// All honest validators; when one of them is a real engine it signs for itself only, and the
+		// Byzantine validator's precommit completes the certificate instead.
+		if w.exclKey >= 0 && i == w.idxOf(h, w.exclKey) {
+			continue
+		}
+		if i == byzIdx && (w.exclKey < 0 || w.idxOf(h, w.exclKey) < 0) {
+			continue
+		}
 		sigs = append(sigs, w.voteSig('c', h, r, hash, i))
 	}
 	return tmconsensus.CommitProof{
@@ -337,4 +352,17 @@ func (w *world) noteHonestPrecommit(h uint64, r uint32, target string, idx int) 
 		w.H++
 		w.R = 0
 	}
+}
+
+// honestMay reports whether honest validator idx may cast this vote: it never votes twice in one round of one kind.
+func (w *world) honestMay(kind byte, h uint64, r uint32, idx int, target string) bool {
+	if idx == byzIdx {
+		return true
+	}
+	k := fmt.Sprintf("%c|%d|%d|%d", kind, h, r, idx)
+	if prev, ok := w.honestVoted[k]; ok {
+		return prev == target
+	}
+	w.honestVoted[k] = target
+	return true
 }
